@@ -148,8 +148,17 @@ def r07_3(run):
                             vals += [getattr(cfg.stmt[x], "value", None) if x != ENTRY else None for x in d2]
                         else:
                             vals.append(v)
-                    if vals and all(isinstance(v, ast.Call) and (dotted(v.func) or "").endswith("WeakRefIterable") for v in vals):
-                        ok, why = True, f"every reaching definition of {a.id} is WeakRefIterable(...)"
+                    def weak_container(v, depth=0):
+                        if isinstance(v, ast.Call) and (dotted(v.func) or "").endswith("WeakRefIterable"):
+                            return True
+                        if isinstance(v, ast.Call) and depth < 2:
+                            r2 = fx.resolve_call(fi, v)
+                            if hasattr(r2, "node") and hasattr(r2, "qualname"):
+                                rets = [x for x in own_nodes(r2.node) if isinstance(x, ast.Return)]
+                                return bool(rets) and all(weak_container(x.value, depth + 1) for x in rets)
+                        return False
+                    if vals and all(weak_container(v) for v in vals):
+                        ok, why = True, f"every reaching definition of {a.id} is WeakRefIterable(...) (possibly through a helper that returns one)"
                 if norm(a) == obj:
                     ok, why = False, "the finalizer's own referent is passed as an argument: it can never be collected"
                 run.ob("R07.3", loc(fi, c), fi.short, f"finalize({obj}, ..., {norm(a)})", ok, why)
